@@ -172,6 +172,25 @@ ASSUME \A i \in Charts :
          /\ EmbedLin(GIdent(N), i) = GIdent(D)
 
 (***************************************************************************)
+(* Hyperplane normals (real mode): the transformation built from a normal   *)
+(* n is only determined up to an orthogonal change of the hyperplane, so    *)
+(* the spec states what IS determined: it is orthogonal and the chart       *)
+(* coordinate of the image of v is n.v / |n| up to sign, i.e.               *)
+(* cos^2 of the angle between v and n is preserved.  Test vectors on the    *)
+(* hyperplane are built as n_j e_i - n_i e_j.                               *)
+(***************************************************************************)
+IntPart(v) == [j \in 1..Len(v) |-> v[j][1]]
+Normals == {nv \in {[j \in 1..D |-> ((k * j + j * j) % 5) - 2] : k \in 1..4} : \E j \in 1..D : nv[j] # 0}
+UnitVec(i) == [c \in 1..D |-> IF c = i THEN 1 ELSE 0]
+OnPlane(nv) == {[c \in 1..D |-> IF c = ij[1] THEN nv[ij[2]] ELSE IF c = ij[2] THEN 0 - nv[ij[1]] ELSE 0] :
+                     ij \in {p \in (1..D) \X (1..D) : p[1] # p[2]}} \ {[c \in 1..D |-> 0]}
+OffPlane(nv) == {v \in {UnitVec(i) : i \in 1..D} \cup {nv} \cup {IntPart(FromAffine(a, i)) : a \in AffPts, i \in Charts} : Dot(v, nv) # 0}
+ASSUME ~Cplx => \A nv \in Normals : /\ \A v \in OnPlane(nv) : Dot(v, nv) = 0
+                                      /\ Cardinality(OnPlane(nv)) >= N /\ OffPlane(nv) # {}
+HypTable == [nv \in Normals |-> [v \in OnPlane(nv) \cup OffPlane(nv) |-> <<Dot(v, nv) * Dot(v, nv), Dot(nv, nv) * Dot(v, v)>>]]
+ASSUME Cplx \/ PrintT("HYP " \o ToJson([nv \in Normals |-> [n |-> nv, pts |-> {<<v, HypTable[nv][v]>> : v \in DOMAIN HypTable[nv]}]]))
+
+(***************************************************************************)
 (* Emission                                                                *)
 (***************************************************************************)
 Obs == [x |-> x, len |-> len, how |-> last,
